@@ -191,7 +191,7 @@ var specC26 = vstat.Spec[c26Case]{
 func TestC26(t *testing.T)       { vstat.Check(t, specC26) }
 func TestC26Replay(t *testing.T) { vstat.Replay(t, specC26) }
 
-var specC26Link = vstat.Spec[linkCase]{Property: "C26", Rule: "link acceptance: " + linkRule, Gen: genLink, Check: checkLink}
+var specC26Link = vstat.Spec[linkCase]{Property: "C26", Rule: "link acceptance: " + linkRule, Gen: genLink, Check: checkLink, Inflight: true}
 
 func TestC26Link(t *testing.T)       { vstat.Check(t, specC26Link) }
 func TestC26LinkReplay(t *testing.T) { vstat.Replay(t, specC26Link) }
